@@ -22,9 +22,9 @@ RULE = (
 ASSUMPTIONS = [
     "the surrounding entity (shell) acknowledges EOF / Finished PDUs of transactions the addressed handler already closed, as the library documents",
     "liveness is restated as bounded progress: quiescence within 6*limit+20 timer expiries after the last fault",
-    "a timer expiring before a delayed PDU arrives ('late') is counted as one of the K faults",
+    "a timer expiring before a delayed PDU arrives ('late': the expiry is serviced by a call of its own; 'race': the PDU is handed over in the very call that detects the expiry) is counted as one of the K faults",
 ]
-KINDS = ["drop", "dup", "delay1", "delay2", "delay4", "quiet", "late"]
+KINDS = ["drop", "dup", "delay1", "delay2", "delay4", "quiet", "late", "race"]
 SEG = 4
 SIZES_ALL = [0, 1, 4, 8, 9]
 
@@ -68,7 +68,7 @@ def key_of(cfg):
 def gen_cases(tier, seed):
     cases = []
     if tier == "quick":
-        k1_sizes, k2_sizes, k2_kinds, nrand = SIZES_ALL, [1, 8], ["drop", "dup", "delay2", "late"], 400
+        k1_sizes, k2_sizes, k2_kinds, nrand = SIZES_ALL, [1, 8], ["drop", "dup", "delay2", "late", "race"], 400
     else:
         k1_sizes, k2_sizes, k2_kinds, nrand = SIZES_ALL, SIZES_ALL, KINDS, 20000
     for size in k1_sizes:
@@ -92,6 +92,22 @@ def gen_cases(tier, seed):
                         for p2 in range(p1 + 1, n1 + 1):
                             for k2 in k2_kinds:
                                 cases.append({"cfg": cfg, "faults": {str(p1): k1, str(p2): k2}, "K": 2})
+    if tier == "thorough":
+        # K = 3 exhaustively on the smallest files (drop / duplicate / timer-before-delivery), limit 4
+        k3 = ["drop", "dup", "late", "race"]
+        for size in (1, 5):
+            for imm in (True, False):
+                cfg = base_cfg(size, imm, bool(size % 2), 4)
+                n0 = emission_count(key_of(cfg), ())
+                for p1 in range(n0):
+                    for k1 in k3:
+                        n1 = emission_count(key_of(cfg), ((p1, k1),))
+                        for p2 in range(p1 + 1, n1):
+                            for k2 in k3:
+                                n2 = emission_count(key_of(cfg), ((p1, k1), (p2, k2)))
+                                for p3 in range(p2 + 1, n2 + 1):
+                                    for k3_ in k3:
+                                        cases.append({"cfg": cfg, "faults": {str(p1): k1, str(p2): k2, str(p3): k3_}, "K": 3})
     # small max_packet_len: the deferred NAK sequence needs several NAK PDUs (30: one request per PDU, 40: two)
     for maxpkt in (30, 40):
         for size in (8, 13):
@@ -124,7 +140,7 @@ def gen_cases(tier, seed):
         if seg <= 8 and rng.random() < 0.4:
             cfg["maxpkt"] = rng.choice([32, 36, 40, 48]) if not cfg["crc"] else rng.choice([34, 42, 50])
         cases.append({"cfg": cfg, "random": {"seed": seed * 1_000_003 + i, "K": K,
-                                             "p": {"drop": 0.08, "dup": 0.04, "delay": 0.05, "quiet": 0.02, "late": 0.02}}, "K": K})
+                                             "p": {"drop": 0.08, "dup": 0.04, "delay": 0.05, "quiet": 0.02, "late": 0.02, "race": 0.02}}, "K": K})
     return cases
 
 
